@@ -70,6 +70,7 @@ type c07case struct {
 	// Pre: what happened before the call and cannot matter by the statement
 	//  prior-records   the logger logged without arguments, another logger (own attributes and arguments) logged in between, twice
 	//  ctx-keys-reset  other context keys were registered and removed with ResetContextKeys before the final ones were registered
+	//  colliding-pairs the logger first logged with plain "key", value pairs that collide with every key of the chain and of the context
 	//  groups-mutated  every group (own and call-site) was built with other members, printed once, then given its final members through SetValue/Add
 	Pre string `json:"pre,omitempty"`
 }
@@ -279,10 +280,29 @@ func c07emit(cas c07case) (payloads []string, pan string) {
 		}
 	}
 	args := make([]any, 0, len(cas.Call))
-	for _, a := range cas.Call {
-		args = append(args, mkAttr(a))
+	for i, a := range cas.Call {
+		if !a.IsG && (len(cas.Call)+len(cas.Chain)+len(cas.CtxKeys)+i)%2 == 0 {
+			args = append(args, a.K, a.ID) // a plain "key", value pair
+		} else {
+			args = append(args, mkAttr(a))
+		}
 	}
 	switch cas.Pre {
+	case "colliding-pairs":
+		var pairs []any
+		for _, own := range cas.Chain {
+			for _, a := range own {
+				pairs = append(pairs, a.K, "stale-call-site-value")
+			}
+		}
+		for _, k := range cas.CtxKeys {
+			pairs = append(pairs, k[2:], "stale-call-site-value")
+		}
+		pan = catch(func() {
+			l.InfoContext(ctx, "pre", pairs...)
+			l.Info("pre2", pairs...)
+		})
+		rec.reset()
 	case "prior-records":
 		other := slog.New("other").SetWriter(io.Discard).SetErrorWriter(io.Discard).SetLevel(slog.AlwaysLevel).SetAttrs(slog.NewAttr("x", 8), slog.NewAttr("y", 9))
 		pan = catch(func() {
@@ -593,7 +613,7 @@ func c07cases(thorough bool, emit func(c07case)) {
 							emit(cas)
 							seq++
 							if thorough || seq%3 == 0 || n == 0 {
-								cas.Pre = []string{"prior-records", "ctx-keys-reset", "groups-mutated"}[(seq/3)%3]
+								cas.Pre = []string{"prior-records", "ctx-keys-reset", "groups-mutated", "colliding-pairs"}[(seq/3)%4]
 								emit(cas)
 							}
 						}
